@@ -35,7 +35,13 @@ PROGRAMS = {
     'own_dir_i': 'a:\ninclude ../lib/util.asm\nj a',
     'range_long': 'start:\naddi x1, x0, K\nj start\nend:\ndw 7\ndw 8',
     'labels_only': 'a:\nb:',
+    # the included file lies in a deep tree (its path is longer than any single file name may be) and includes a sibling
+    'deep_i': 'a:\ninclude DEEP/mod.asm\nj a',
+    # a call beyond the reach of jal (auipc+jalr), then labelled instructions that have 16-bit forms
+    'golden_far': 'start:\ncall far\nloop:\naddi a0, a0, -1\nbnez a0, loop\nret\ninclude_bytes big.bin\nfar:\nret',
 }
+FAR_N = 1 << 20
+BLOBS = {'/proj/src/big.bin': bytes(FAR_N)}
 # histories: the same command line run twice over changing sources (re-assembling to the same paths);
 # everything is judged after the last run
 HISTORIES = {
@@ -44,7 +50,12 @@ HISTORIES = {
     'same': ('range', 'range'),
     'to_empty': ('range_long', 'labels_only'),
 }
-INC = {'/proj/src/inc/part.asm': 'part:\naddi x3, x0, K\ndw part',
+DEEP = '/'.join('level%d_%s' % (i, 'x' * 40) for i in range(7))      # 7 components, 335 characters
+PROGRAMS['deep_i'] = PROGRAMS['deep_i'].replace('DEEP', DEEP)
+INC = {'/proj/src/' + DEEP + '/mod.asm': 'mod:\ninclude regs.asm\naddi x3, x0, K',
+       '/proj/src/' + DEEP + '/regs.asm': 'REG = 4\naddi x4, x0, REG',
+       '/proj/run/regs.asm': 'REG = 6\naddi x6, x0, REG\ndw 2',     # in the working directory: never searched
+       '/proj/src/inc/part.asm': 'part:\naddi x3, x0, K\ndw part',
        '/proj/run/zinc/part.asm': 'zpart:\naddi x3, x0, K',
        '/proj/run/ainc/part.asm': 'apart:\naddi x4, x0, K\naddi x0, x0, 0',
        # reached through -i ../vendor; its nested include names a sibling that also exists next to main.asm
@@ -60,6 +71,7 @@ INC = {'/proj/src/inc/part.asm': 'part:\naddi x3, x0, K\ndw part',
 GOLDEN = {
     'golden_align': {False: ('13051000' '93050500' '67800000' '44332211', {'table': 12, 'end': 16}),
                      True: ('0545' 'aa85' '8280' '0000' '44332211', {'table': 8, 'end': 12})},
+    'golden_far': None,     # built from spec/isa.py by _check_golden (1 MiB of zeros in the middle)
 }
 
 
@@ -72,11 +84,24 @@ def _check_golden():
         assert legal
         return word.to_bytes(isa.T[m].bits // 8, 'little').hex()
     assert GOLDEN['golden_align'][False][0] == w('addi', rd=10, rs1=0, imm=1) + w('addi', rd=11, rs1=10, imm=0) + w('jalr', rd=0, rs1=1, imm=0) + '44332211'
+    if GOLDEN['golden_far'] is None:
+        g = {}
+        for comp in (False, True):
+            v = (14 if comp else 20) + FAR_N         # offset of far:, also the distance of the call at offset 0
+            hi = (v + 0x800) >> 12
+            head = w('auipc', rd=1, imm=hi) + w('jalr', rd=1, rs1=1, imm=v - (hi << 12))
+            if comp:
+                body, tail = w('c.addi', rd=10, imm=-1) + w('c.bnez', rs1=10, imm=-2) + w('c.jr', rs1=1), w('c.jr', rs1=1)
+            else:
+                body, tail = w('addi', rd=10, rs1=10, imm=-1) + w('bne', rs1=10, rs2=0, imm=-4) + w('jalr', rd=0, rs1=1, imm=0), w('jalr', rd=0, rs1=1, imm=0)
+            g[comp] = (head + body + '00' * FAR_N + tail, {'start': 0, 'loop': 8, 'far': v})
+        GOLDEN['golden_far'] = g
     assert GOLDEN['golden_align'][True][0] == w('c.li', rd=10, imm=1) + w('c.mv', rd=11, rs2=10) + w('c.jr', rs1=1) + '0000' + '44332211'
 
 
 # (program, option set) -> the program with its includes spliced in by hand (the documented search decides which file)
 SPLICED = {
+    ('deep_i', 'o'): 'a:\nmod:\nREG = 4\naddi x4, x0, REG\naddi x3, x0, K\nj a',
     ('own_dir_i', 'i_src'): 'a:\nutil:\nCOMMON = 0x55\naddi x4, x0, COMMON\naddi x3, x0, K\nj a',
     ('nested_i', 'i_vendor'): 'a:\nuart:\nREG = 4\naddi x4, x0, REG\naddi x3, x0, K\nj a',
     ('included', 'o'): 'a:\npart:\naddi x3, x0, K\ndw part\nj a',
@@ -104,6 +129,16 @@ ARGVS = {
     'i_two': ['-i', 'zinc', '-i', 'ainc', '-o', 'out.bin', '-l', 'labels.txt'],
     'i_two_dup': ['-i', 'zinc', '-i', '../run/ainc', '-i', 'zinc'],
 }
+
+
+def _inc_dirs():
+    """every directory on the way to an included file, shortest first"""
+    out = set()
+    for pth in INC:
+        parts = pth.split('/')[1:-1]
+        for i in range(1, len(parts) + 1):
+            out.add('/' + '/'.join(parts[:i]))
+    return sorted(out, key=len)
 
 
 class _FakeLogging:
@@ -147,11 +182,15 @@ def cli_task(prog, argv_name, prop='C17'):
         v = vfsmod.VFS('/proj/run')
         for d in ('/proj/run', '/proj/src', '/proj/src/inc', '/proj/run/zinc', '/proj/run/ainc', '/proj/vendor', '/proj/vendor/drivers', '/proj/lib'):
             v.add_dir(d)
+        for d in _inc_dirs():
+            v.add_dir(d)
         for pth, data in OLD.items():
             (v.add_bytes if isinstance(data, bytes) else v.add_text)(pth, data)
         v.add_text('/proj/src/main.asm', PROGRAMS[progs[0]].replace('K', '@K@'))
         for pth, text in INC.items():
             v.add_text(pth, text.replace('K', '@K@'))
+        for pth, data in BLOBS.items():
+            v.add_bytes(pth, data)
         v.install(asm)
         K = p.int('K', 40)
         H = p.int('H', lo=0, hi=(1 << 32) - 1)
@@ -237,7 +276,11 @@ def cli_task(prog, argv_name, prop='C17'):
             except BaseException:
                 got = None
             if got != ghex:
-                probs.append('-o file holds %s, the program encodes by hand to %s' % (got, ghex))
+                if got is not None and len(ghex) > 256:
+                    k = next((i for i in range(0, min(len(got), len(ghex)), 2) if got[i:i + 2] != ghex[i:i + 2]), min(len(got), len(ghex))) // 2
+                    probs.append('-o file (%d bytes) differs from the program encoded by hand (%d bytes) at offset %d: %s.. against %s..' % (len(got) // 2, len(ghex) // 2, k, got[2 * k:2 * k + 16], ghex[2 * k:2 * k + 16]))
+                else:
+                    probs.append('-o file holds %s, the program encodes by hand to %s' % (got, ghex))
             if labels is not None and {k: core.concrete(v, model) for k, v in labels.items()} != glabels:
                 probs.append('labels %r, by hand %r' % ({k: core.concrete(v, model) for k, v in labels.items()}, glabels))
         # programs with includes: the bytes are those of the hand-spliced program (assembled by a fresh copy of the module)
@@ -340,6 +383,8 @@ def _real_cli(real, progs, argv, kv):
     try:
         for d in ('/proj/run', '/proj/src/inc', '/proj/run/zinc', '/proj/run/ainc', '/proj/vendor/drivers', '/proj/lib'):
             os.makedirs(root + d, exist_ok=True)
+        for d in _inc_dirs():
+            os.makedirs(root + d, exist_ok=True)
         for pth, data in OLD.items():
             with open(root + pth, 'wb' if isinstance(data, bytes) else 'w') as f:
                 f.write(data)
@@ -350,6 +395,9 @@ def _real_cli(real, progs, argv, kv):
         for pth, text in INC.items():
             with open(root + pth, 'w') as f:
                 f.write(text.replace('K', str(kv)))
+        for pth, data in BLOBS.items():
+            with open(root + pth, 'wb') as f:
+                f.write(data)
         os.chdir(root + '/proj/run')
         sys.argv = list(argv)
         sys.modules['intelhex'] = FakeIntelHex(log)
